@@ -120,6 +120,20 @@ impl TilemapData {
         Some(&self.tiles[index])
     }
 
+    // Validates that all tiles refer to a tile in a tileset with `tile_count` tiles.
+    pub(crate) fn validate(&self, tile_count: u32) -> Result<()> {
+        for tile in self.tiles.iter() {
+            if tile.id() >= tile_count {
+                return Err(AsepriteParseError::InvalidInput(format!(
+                    "Invalid tile id {} in tilemap, tileset has only {} tiles",
+                    tile.id(),
+                    tile_count
+                )));
+            }
+        }
+        Ok(())
+    }
+
     pub(crate) fn parse_chunk<R: Read>(mut reader: AseReader<R>) -> Result<Self> {
         let width = reader.word()?;
         let height = reader.word()?;
